@@ -106,6 +106,9 @@ func script(n int, rng *rand.Rand, tracking bool) []tline {
 			// a bare PING makes the built-in handler panic; a PRIVMSG has nothing to witness
 			if kind >= 8 {
 				ls[k] = tline{raw: fmt.Sprintf("@k=%d PING", kk), verb: "PING", ipanic: true}
+			} else if rng.Intn(6) == 0 {
+				// a line longer than the client's read buffer must still be one event
+				ls[k] = tline{raw: fmt.Sprintf(":x!y@z PRIVMSG #c :line %d %s", kk, strings.Repeat("long ", 900+rng.Intn(900))), verb: "PRIVMSG"}
 			} else {
 				ls[k] = tline{raw: fmt.Sprintf(":x!y@z PRIVMSG #c :line %d", kk), verb: "PRIVMSG"}
 			}
@@ -248,7 +251,12 @@ func runSession(t *tlog, o sessionOpts, rng *rand.Rand) (stats map[string]int, e
 			if l.Cmd == client.CONNECTED {
 				k = 1
 			}
+			if k == 0 && strings.HasPrefix(l.Raw, "PING :sync-") {
+				return // the harness' own synchronisation line
+			}
 			if k == 0 {
+				// a handler was given a line the server never sent (e.g. a fragment of a long line)
+				t.add(event{Ev: "unknown"})
 				return
 			}
 			gmu.Lock()
@@ -352,6 +360,14 @@ func runSession(t *tlog, o sessionOpts, rng *rand.Rand) (stats map[string]int, e
 		case <-time.After(20 * time.Second):
 			return stats, fmt.Errorf("no DISCONNECTED after Close")
 		}
+	}
+	if o.end == "" {
+		// the connection stayed up: every line must have reached the foreground handlers
+		gmu.Lock()
+		if maxSeen != len(ls)-1 || gapped {
+			t.add(event{Ev: "lost", K: maxSeen})
+		}
+		gmu.Unlock()
 	}
 	// let background handlers that are still running log their exit
 	time.Sleep(3 * time.Millisecond)
